@@ -52,6 +52,7 @@ func (st *State) entFail(results *types.Tuple, k func(st *State, res SVal)) {
 	st2.assume(App(SBool, st2.declareFun("err_is_dbfailure", []Sort{SInt}, SBool), e))
 	st2.assume(Not(st2.errIs("notfound", e)))
 	st2.assume(Not(st2.errIs("notsingular", e)))
+	st2.assume(Not(st2.errIs("constraint", e)))
 	st2.ghostSet("dbfailed", nil, TTrue)
 	st2.tr("dbfail")
 	k(st2, st2.resultWithErr(results, e, nil))
@@ -197,6 +198,7 @@ func (st *State) entTerminal(fr *Frame, in ssa.CallInstruction, callee *ssa.Func
 				st.assume(st.rowLive(st.heap, t, b.OneID))
 			}
 			pre := st.snapshot()
+			st.hookRejectUpdate(pre, h, results, k)
 			st.applyUpdate(pre, b)
 			var res SVal
 			if results.Len() == 2 {
@@ -780,3 +782,49 @@ func (st *State) applyDelete(pre *HeapView, b *entBuilder) {
 		}
 	}
 }
+
+// hookRejectUpdate forks the path in which the schema hook (live = true <=> deleted_at IS NULL) refuses
+// the update because some selected row would violate the rule afterwards.
+func (st *State) hookRejectUpdate(pre *HeapView, h *EntH, results *types.Tuple, k func(st *State, res SVal)) {
+	b := st.builder(h)
+	t := b.Table
+	if t.ByName["live"] == nil || t.ByName["deleted_at"] == nil {
+		return
+	}
+	touches := false
+	for _, s := range b.Sets {
+		if s.Col == "live" || s.Col == "deleted_at" {
+			touches = true
+		}
+	}
+	if !touches {
+		return
+	}
+	st2 := st.clone()
+	b2 := st2.builder(h)
+	x := st2.fresh("badrow", SInt)
+	// values after the update for row x
+	liveNull := st2.colNull(pre, t, "live", x)
+	liveVal := st2.colGet(pre, t, "live", x)
+	delNull := st2.colNull(pre, t, "deleted_at", x)
+	for _, s := range b2.Sets {
+		switch {
+		case s.Col == "live" && s.Op == "clear":
+			liveNull = TTrue
+		case s.Col == "live" && s.Op == "set":
+			liveNull, liveVal = TFalse, s.Val
+		case s.Col == "deleted_at" && s.Op == "clear":
+			delNull = TTrue
+		case s.Col == "deleted_at" && s.Op == "set":
+			delNull = TFalse
+		}
+	}
+	st2.assume(And(st2.selFormula(pre, b2, x), Not(Eq(And(Not(liveNull), liveVal), delNull))))
+	e := st2.newErr("hookerr")
+	st2.assume(st2.errIs("validation", e))
+	st2.assume(Not(st2.errIs("notfound", e)))
+	st2.assume(Not(st2.errIs("constraint", e)))
+	st2.tr("hook-rejects")
+	k(st2, st2.resultWithErr(results, e, nil))
+}
+
